@@ -37,6 +37,7 @@ def run(program, res, tier):
     c05._sql_s1(program, r1, d, rows, {}, tmeth)
     c05._s2(program, r1, [d])
     c05._s4_slice_contract(program, Relabel(res, {"*": "C02-S1"}))
+    c05.sql_division_rule(program, res, d, "C02-S1")
     c05._require_decided(res)
     # configuration constants of the dialect
     cte = d.const_kwarg("supports_cte_elim")
